@@ -249,6 +249,8 @@ func (g *wgen) gen() {
 		d.n(fReusable, "reusable-input:def", k)
 		if i == 0 {
 			d.w(fReusable, ":\n        type: string\n        required: true\n")
+		} else if r.Chance(1, 2) {
+			d.w(fReusable, ":\n") // declared by its key only
 		} else {
 			d.w(fReusable, ":\n        type: number\n        required: false\n")
 		}
@@ -259,6 +261,8 @@ func (g *wgen) gen() {
 		d.n(fReusable, "reusable-secret:def", k)
 		if i == 0 {
 			d.w(fReusable, ":\n        required: true\n")
+		} else if r.Chance(1, 2) {
+			d.w(fReusable, ":\n")
 		} else {
 			d.w(fReusable, ":\n        required: false\n")
 		}
@@ -354,6 +358,11 @@ func (g *wgen) gen() {
 				if bogus {
 					d.w(f, ", ")
 					d.n(f, "needs:use", "nosuch_job")
+				}
+				if r.Chance(1, 4) {
+					// the same job listed twice (a duplicate whatever the letter case of either entry)
+					d.w(f, ", ")
+					d.n(f, "needs:use", needs[0])
 				}
 				d.w(f, "]\n")
 			}
